@@ -309,6 +309,7 @@ Lemma Inv_issue b t i op kind inner root gid key val exp :
 Proof.
   intros I0 G. pose proof (Inv_now b t I0) as I. clear I0.
   cbn in G. apply app_nil_l2 in G. destruct G as [G0 G]. apply app_nil_l2 in G. destruct G as [Gk G].
+  apply app_nil_l2 in G. destruct G as [G _].
   apply pwhen_nil in G0. apply pwhen_nil in Gk. apply Bool.negb_false_iff in Gk. apply Z.eqb_eq in Gk.
   cbn [bapply]. set (b0 := b <| b_now := t |>) in *.
   set (p := mkPend i kind inner root gid key val exp t None).
@@ -463,7 +464,8 @@ Proof.
     apply Z.eqb_eq in G2. subst r.
     unfold v. rewrite Hk in G3 |- *. change (kGet =? kGet) with true in G3 |- *. cbn [negb orb] in G3. apply Z.eqb_eq in G3. subst v'.
     exact (J7 op p rev val t' Hop Hk Ea). }
-  destruct ((p_kind p =? kUpdate) && (p_inner p =? sHeartbeat) && (rk =? oOk))%bool; [|exact I1].
+  destruct ((p_kind p =? kUpdate) && (p_inner p =? sHeartbeat) && (rk =? oOk) && io_flag (inst_of b1 i)
+            && (v_stok (vinfo_of b1 (p_val p)) =? io_tok (inst_of b1 i)))%bool; [|exact I1].
   (* only the instance's views change *)
   apply (Inv_frame b1); [unfold same_store, upd_inst, set_inst; cbn; intuition| |exact I1].
   intros j. rewrite inst_of_upd. destruct (i =? j); [cbn|]; apply (inv_stopped _ I1).
